@@ -1,7 +1,7 @@
 (** C02 — property theorems only. *)
 From Coq Require Import List ZArith NArith Bool.
 From C33 Require Import Lib.Harness C01.Keys C01.Model C01.Store C01.Inv
-  C02.Model C02.ProofsHash C02.ProofsSet C02.ProofsStore C02.ProofsTop C02.ProofsTotal.
+  C02.Model C02.ProofsHash C02.ProofsSet C02.ProofsStore C02.ProofsTop C02.ProofsTotal C02.ProofsClosed.
 Import ListNotations.
 Open Scope Z_scope.
 
@@ -127,6 +127,17 @@ Theorem C02_update_total_partial : forall pending ord c s r bh kvs,
 Proof. exact update_total_partial. Qed.
 Print Assumptions C02_update_total_partial.
 
+(** Without memTree and without prune the guard of the previous theorem holds
+    along every history whose updates build on the empty root or on roots the
+    history committed ([wf_exec]): there, every update succeeds. *)
+Theorem C02_update_total_nomem : forall c, c_memtree c = false -> c_prune c = false ->
+  forall ord ops r pending bh kvs,
+    wf_exec c ord empty_store [None] ops ->
+    In r (snd (exec' c ord empty_store [None] ops)) ->
+    exists r' s', st_update pending ord c (fst (exec' c ord empty_store [None] ops)) r bh kvs = Ok (r', s').
+Proof. exact update_total_nomem. Qed.
+Print Assumptions C02_update_total_nomem.
+
 (** Non-vacuity. *)
 From Coq Require Strings.String.
 Import Coq.Strings.String.StringSyntax.
@@ -180,3 +191,13 @@ Proof. vm_compute. repeat split; reflexivity. Qed.
 Example C02_ex_aliased :
   plain_update false (fst (exec al_ord al_cfg empty_store [None] al_ops)) al_r1 [] = false.
 Proof. vm_compute. reflexivity. Qed.
+
+(* a well-formed history with a fork, a rolled-back pending update and a commit
+   (prefix + mvcc configuration, no memTree, no prune) *)
+Definition ex_c3 := mk_cfg true true false 0 false false 0.
+Definition ex_ops3 : list sop :=
+  [SSet None 7 ex_kvs1; SMemSet (ex_root ex_c3) 9 [(kb "k2", kb "x")]; SRollback (ex_root ex_c3);
+   SSet (ex_root ex_c3) 7 [(kb "k9", kb "y")]; SSet (ex_root ex_c3) 7 [(kb "k8", kb "y")]].
+Example C02_ex_wf : wf_exec ex_c3 ord0 empty_store [None] ex_ops3 /\
+  length (snd (exec' ex_c3 ord0 empty_store [None] ex_ops3)) = 4%nat.
+Proof. vm_compute. intuition. Qed.
